@@ -856,4 +856,705 @@ theorem rankedBy_of_all {h : Heap} {rank : Addr → Nat}
   simp only [hg] at this
   exact of_decide_eq_true (List.all_eq_true.mp this k hk)
 
+/-! ## 4. Merge -/
+
+section mergeUnfold
+variable {g : Heap → Addr → Addr → Option (Heap × Addr)} {h : Heap}
+
+theorem foldKvs_cons_none {acc : AMap Addr} {k : String} {v : Addr} {rest : List (String × Addr)}
+    (hk : AMap.get? acc k = none) :
+    foldKvs g h acc ((k, v) :: rest) = foldKvs g h (AMap.insert acc k v) rest := by
+  simp only [foldKvs, hk]
+
+theorem foldKvs_cons_some {acc : AMap Addr} {k : String} {v n : Addr} {rest : List (String × Addr)}
+    (hk : AMap.get? acc k = some n) :
+    foldKvs g h acc ((k, v) :: rest) =
+      (g h n v).bind fun p => foldKvs g p.1 (AMap.insert acc k p.2) rest := by
+  simp only [foldKvs, hk]
+  cases g h n v <;> rfl
+
+theorem mergeNodeF_cont {o : ListStrategy} {f : Nat} {n v : Addr} {ka kb : AMap Addr}
+    (hn : h.get? n = some (.cont ka)) (hv : h.get? v = some (.cont kb)) :
+    mergeNodeF o (f + 1) h n v =
+      (foldKvs (mergeNodeF o f) h ka kb).bind fun p => some (p.1.alloc (.cont p.2)) := by
+  simp only [mergeNodeF, hn, hv]
+  cases foldKvs (mergeNodeF o f) h ka kb <;> rfl
+
+theorem mergeNodeF_list_append {f : Nat} {n v : Addr} {xs ys : List Addr}
+    (hn : h.get? n = some (.list xs)) (hv : h.get? v = some (.list ys)) :
+    mergeNodeF .append (f + 1) h n v = some (h.alloc (.list (xs ++ ys))) := by
+  simp only [mergeNodeF, hn, hv]
+
+theorem mergeNodeF_list_meld {f : Nat} {n v : Addr} {xs ys : List Addr}
+    (hn : h.get? n = some (.list xs)) (hv : h.get? v = some (.list ys)) :
+    mergeNodeF .meld (f + 1) h n v =
+      (meldItems (mergeNodeF .meld f) h xs ys).bind fun p => some (p.1.alloc (.list p.2)) := by
+  simp only [mergeNodeF, hn, hv]
+  cases meldItems (mergeNodeF .meld f) h xs ys <;> rfl
+
+theorem mergeNodeF_other {o : ListStrategy} {f : Nat} {n v : Addr} {cn cv : Cell}
+    (hn : h.get? n = some cn) (hv : h.get? v = some cv)
+    (h1 : ¬ (cn.isCont = true ∧ cv.isCont = true)) (h2 : ¬ (cn.isList = true ∧ cv.isList = true)) :
+    mergeNodeF o (f + 1) h n v = some (h, coalesceH h n v) := by
+  cases cn <;> cases cv <;> simp_all [mergeNodeF, Cell.isCont, Cell.isList]
+
+theorem mergeNodeF_none {o : ListStrategy} {f : Nat} {n v : Addr}
+    (hnv : h.get? n = none ∨ h.get? v = none) : mergeNodeF o (f + 1) h n v = none := by
+  rcases hnv with hn | hv
+  · simp only [mergeNodeF, hn]
+  · cases hn : h.get? n <;> simp only [mergeNodeF, hn, hv]
+
+end mergeUnfold
+
+/-- the three ways two cells can meet -/
+theorem cellPair_cases (cn cv : Cell) :
+    (∃ ka kb, cn = .cont ka ∧ cv = .cont kb) ∨ (∃ xs ys, cn = .list xs ∧ cv = .list ys) ∨
+    (¬ (cn.isCont = true ∧ cv.isCont = true) ∧ ¬ (cn.isList = true ∧ cv.isList = true)) := by
+  cases cn <;> cases cv <;> simp [Cell.isCont, Cell.isList]
+
+/-! ### 4a. Merge never writes an existing cell -/
+
+def LeSpec2 (g : Heap → Addr → Addr → Option (Heap × Addr)) : Prop :=
+  ∀ h n v h' r, g h n v = some (h', r) → h ≤ h'
+
+theorem foldKvs_le {g : Heap → Addr → Addr → Option (Heap × Addr)} (hg : LeSpec2 g) :
+    ∀ (kb : List (String × Addr)) (h : Heap) (acc : AMap Addr) (h' : Heap) (m : AMap Addr),
+      foldKvs g h acc kb = some (h', m) → h ≤ h'
+  | [], h, acc, h', m, hf => by
+    simp only [foldKvs, Option.some.injEq, Prod.mk.injEq] at hf
+    rw [← hf.1]; exact le_refl _
+  | (k, v) :: rest, h, acc, h', m, hf => by
+    cases hk : AMap.get? acc k with
+    | none =>
+      rw [foldKvs_cons_none hk] at hf
+      exact foldKvs_le hg rest h _ h' m hf
+    | some n =>
+      rw [foldKvs_cons_some hk] at hf
+      cases hgn : g h n v with
+      | none => simp [hgn] at hf
+      | some q =>
+        obtain ⟨h1, r⟩ := q
+        simp only [hgn, Option.bind_some] at hf
+        exact le_trans (hg h n v h1 r hgn) (foldKvs_le hg rest h1 _ h' m hf)
+
+theorem meldItems_le {g : Heap → Addr → Addr → Option (Heap × Addr)} (hg : LeSpec2 g) :
+    ∀ (xs ys : List Addr) (h h' : Heap) (zs : List Addr),
+      meldItems g h xs ys = some (h', zs) → h ≤ h'
+  | xs, [], h, h', zs, hm => by
+    simp only [meldItems, Option.some.injEq, Prod.mk.injEq] at hm
+    rw [← hm.1]; exact le_refl _
+  | [], y :: ys, h, h', zs, hm => by
+    simp only [meldItems, Option.some.injEq, Prod.mk.injEq] at hm
+    rw [← hm.1]; exact le_refl _
+  | x :: xs, y :: ys, h, h', zs, hm => by
+    simp only [meldItems] at hm
+    cases hgn : g h x y with
+    | none => simp [hgn] at hm
+    | some q =>
+      obtain ⟨h1, r⟩ := q
+      simp only [hgn] at hm
+      cases hrest : meldItems g h1 xs ys with
+      | none => simp [hrest] at hm
+      | some q2 =>
+        obtain ⟨h2, rs⟩ := q2
+        simp only [hrest, Option.some.injEq, Prod.mk.injEq] at hm
+        rw [← hm.1]
+        exact le_trans (hg h x y h1 r hgn) (meldItems_le hg xs ys h1 h2 rs hrest)
+
+theorem mergeNodeF_le (o : ListStrategy) : ∀ (f : Nat), LeSpec2 (mergeNodeF o f)
+  | 0 => by intro h n v h' r hm; simp [mergeNodeF] at hm
+  | f + 1 => by
+    intro h n v h' r hm
+    cases hn : h.get? n with
+    | none => rw [mergeNodeF_none (Or.inl hn)] at hm; cases hm
+    | some cn =>
+      cases hv : h.get? v with
+      | none => rw [mergeNodeF_none (Or.inr hv)] at hm; cases hm
+      | some cv =>
+        rcases cellPair_cases cn cv with ⟨ka, kb, rfl, rfl⟩ | ⟨xs, ys, rfl, rfl⟩ | ⟨c1, c2⟩
+        · rw [mergeNodeF_cont hn hv] at hm
+          cases hf : foldKvs (mergeNodeF o f) h ka kb with
+          | none => simp [hf] at hm
+          | some q =>
+            obtain ⟨h1, m⟩ := q
+            simp only [hf, Option.bind_some, Option.some.injEq] at hm
+            have e1 : h' = (h1.alloc (.cont m)).1 := (congrArg Prod.fst hm).symm
+            rw [e1]
+            exact le_trans (foldKvs_le (mergeNodeF_le o f) kb h ka h1 m hf) (le_alloc _ _)
+        · cases o with
+          | append =>
+            rw [mergeNodeF_list_append hn hv] at hm
+            simp only [Option.some.injEq] at hm
+            have e1 : h' = (h.alloc (.list (xs ++ ys))).1 := (congrArg Prod.fst hm).symm
+            rw [e1]; exact le_alloc _ _
+          | meld =>
+            rw [mergeNodeF_list_meld hn hv] at hm
+            cases hf : meldItems (mergeNodeF .meld f) h xs ys with
+            | none => simp [hf] at hm
+            | some q =>
+              obtain ⟨h1, zs⟩ := q
+              simp only [hf, Option.bind_some, Option.some.injEq] at hm
+              have e1 : h' = (h1.alloc (.list zs)).1 := (congrArg Prod.fst hm).symm
+              rw [e1]
+              exact le_trans (meldItems_le (mergeNodeF_le .meld f) xs ys h h1 zs hf) (le_alloc _ _)
+        · rw [mergeNodeF_other hn hv c1 c2] at hm
+          simp only [Option.some.injEq, Prod.mk.injEq] at hm
+          rw [← hm.1]; exact le_refl _
+
+theorem mergeContainersF_le {o : ListStrategy} {f : Nat} {h h' : Heap} {c1 c2 r : Addr}
+    (hm : mergeContainersF o f h c1 c2 = some (h', r)) : h ≤ h' := by
+  unfold mergeContainersF at hm
+  split at hm
+  · exact mergeNodeF_le o f h c1 c2 h' r hm
+  · cases hm
+
+theorem mergeAllF_le {o : ListStrategy} {f : Nat} :
+    ∀ (ls : List Addr) (h h' : Heap) (acc r : Addr), mergeAllF o f h acc ls = some (h', r) → h ≤ h'
+  | [], h, h', acc, r, hm => by
+    simp only [mergeAllF, Option.some.injEq, Prod.mk.injEq] at hm
+    rw [← hm.1]; exact le_refl _
+  | l :: ls, h, h', acc, r, hm => by
+    simp only [mergeAllF] at hm
+    cases hc : mergeContainersF o f h acc l with
+    | none => simp [hc] at hm
+    | some q =>
+      obtain ⟨h1, a1⟩ := q
+      simp only [hc] at hm
+      exact le_trans (mergeContainersF_le hc) (mergeAllF_le ls h1 h' a1 r hm)
+
+/-! ### 4b. Sharing: what the result of a merge can point to
+
+  `h0` is the input heap, `S` a set of input addresses (everything reachable from the inputs,
+  and the nil leaf) that lies inside `h0` and is closed under the child edge.  `Good h a`:
+  `a` is an input address in `S` or a cell allocated since.  `MInv h`: nothing old was written
+  and every cell allocated since only points to `Good` addresses. -/
+
+structure ShareCtx (h0 : Heap) (S : Addr → Prop) : Prop where
+  lt : ∀ b, S b → b < h0.size
+  closed : ∀ a c, S a → h0.get? a = some c → ∀ k ∈ c.kids, S k
+  nil : S nilAddr
+
+def Good (h0 : Heap) (S : Addr → Prop) (h : Heap) (a : Addr) : Prop :=
+  S a ∨ (h0.size ≤ a ∧ a < h.size)
+
+def MInv (h0 : Heap) (S : Addr → Prop) (h : Heap) : Prop :=
+  h0 ≤ h ∧ ∀ a c, h0.size ≤ a → h.get? a = some c → ∀ k ∈ c.kids, Good h0 S h k
+
+section share
+variable {h0 : Heap} {S : Addr → Prop}
+
+theorem Good.mono {h h' : Heap} (hl : h ≤ h') {a : Addr} (hg : Good h0 S h a) : Good h0 S h' a := by
+  rcases hg with hs | ⟨h1, h2⟩
+  · exact Or.inl hs
+  · exact Or.inr ⟨h1, Nat.lt_of_lt_of_le h2 (size_le_of_le hl)⟩
+
+theorem Good.kids (ctx : ShareCtx h0 S) {h : Heap} (hi : MInv h0 S h) {a : Addr} {c : Cell}
+    (hg : Good h0 S h a) (hc : h.get? a = some c) : ∀ k ∈ c.kids, Good h0 S h k := by
+  intro k hk
+  rcases hg with hs | ⟨h1, _⟩
+  · have hlt := ctx.lt a hs
+    rw [get?_eq_of_le hi.1 hlt] at hc
+    exact Or.inl (ctx.closed a c hs hc k hk)
+  · exact hi.2 a c h1 hc k hk
+
+theorem MInv.alloc {h : Heap} (hi : MInv h0 S h) {c : Cell} (hc : ∀ k ∈ c.kids, Good h0 S h k) :
+    MInv h0 S (h.alloc c).1 := by
+  refine ⟨le_trans hi.1 (le_alloc _ _), ?_⟩
+  intro a d ha hg k hk
+  rcases get?_alloc hg with ⟨_, hg'⟩ | ⟨_, rfl⟩
+  · exact (hi.2 a d ha hg' k hk).mono (le_alloc _ _)
+  · exact (hc k hk).mono (le_alloc _ _)
+
+theorem Good.alloc_new {h : Heap} (hi : MInv h0 S h) (c : Cell) : Good h0 S (h.alloc c).1 h.size :=
+  Or.inr ⟨size_le_of_le hi.1, by rw [size_alloc]; exact Nat.lt_succ_self _⟩
+
+theorem MInv.init (h0 : Heap) (S : Addr → Prop) : MInv h0 S h0 :=
+  ⟨le_refl _, fun a _ ha hg => absurd (get?_lt hg) (Nat.not_lt.mpr ha)⟩
+
+/-- everything reachable from a `Good` address is `Good` -/
+theorem Good.reach (ctx : ShareCtx h0 S) {h : Heap} (hi : MInv h0 S h) {r b : Addr}
+    (hr : Reach h r b) (hg : Good h0 S h r) : Good h0 S h b :=
+  Reach.closed_set (Good h0 S h) (fun _ _ ha hc k hk => Good.kids ctx hi ha hc k hk) hr hg
+
+def ShareSpec2 (h0 : Heap) (S : Addr → Prop) (g : Heap → Addr → Addr → Option (Heap × Addr)) : Prop :=
+  ∀ h n v h' r, MInv h0 S h → Good h0 S h n → Good h0 S h v → g h n v = some (h', r) →
+    h ≤ h' ∧ MInv h0 S h' ∧ Good h0 S h' r
+
+theorem foldKvs_share {g : Heap → Addr → Addr → Option (Heap × Addr)} (hg : ShareSpec2 h0 S g) :
+    ∀ (kb : List (String × Addr)) (h : Heap) (acc : AMap Addr) (h' : Heap) (m : AMap Addr),
+      MInv h0 S h → (∀ p ∈ acc, Good h0 S h p.2) → (∀ p ∈ kb, Good h0 S h p.2) →
+      foldKvs g h acc kb = some (h', m) →
+      h ≤ h' ∧ MInv h0 S h' ∧ ∀ p ∈ m, Good h0 S h' p.2
+  | [], h, acc, h', m, hi, ha, _, hf => by
+    simp only [foldKvs, Option.some.injEq, Prod.mk.injEq] at hf
+    obtain ⟨rfl, rfl⟩ := hf
+    exact ⟨le_refl _, hi, ha⟩
+  | (k, v) :: rest, h, acc, h', m, hi, ha, hb, hf => by
+    have hv : Good h0 S h v := hb (k, v) (List.mem_cons_self ..)
+    have hrest : ∀ p ∈ rest, Good h0 S h p.2 := fun p hp => hb p (List.mem_cons_of_mem _ hp)
+    cases hk : AMap.get? acc k with
+    | none =>
+      rw [foldKvs_cons_none hk] at hf
+      refine foldKvs_share hg rest h _ h' m hi ?_ hrest hf
+      intro p hp
+      rcases Ytk.mem_insert hp with rfl | hp
+      · exact hv
+      · exact ha p hp
+    | some n =>
+      rw [foldKvs_cons_some hk] at hf
+      have hn : Good h0 S h n := ha (k, n) (AMap.mem_of_get? hk)
+      cases hgn : g h n v with
+      | none => simp [hgn] at hf
+      | some q =>
+        obtain ⟨h1, r⟩ := q
+        simp only [hgn, Option.bind_some] at hf
+        obtain ⟨l1, i1, g1⟩ := hg h n v h1 r hi hn hv hgn
+        obtain ⟨l2, i2, g2⟩ := foldKvs_share hg rest h1 _ h' m i1 (by
+          intro p hp
+          rcases Ytk.mem_insert hp with rfl | hp
+          · exact g1
+          · exact (ha p hp).mono l1) (fun p hp => (hrest p hp).mono l1) hf
+        exact ⟨le_trans l1 l2, i2, g2⟩
+
+theorem meldItems_share {g : Heap → Addr → Addr → Option (Heap × Addr)} (hg : ShareSpec2 h0 S g) :
+    ∀ (xs ys : List Addr) (h h' : Heap) (zs : List Addr),
+      MInv h0 S h → (∀ x ∈ xs, Good h0 S h x) → (∀ y ∈ ys, Good h0 S h y) →
+      meldItems g h xs ys = some (h', zs) →
+      h ≤ h' ∧ MInv h0 S h' ∧ ∀ z ∈ zs, Good h0 S h' z
+  | xs, [], h, h', zs, hi, hx, _, hm => by
+    simp only [meldItems, Option.some.injEq, Prod.mk.injEq] at hm
+    obtain ⟨rfl, rfl⟩ := hm
+    exact ⟨le_refl _, hi, hx⟩
+  | [], y :: ys, h, h', zs, hi, _, hy, hm => by
+    simp only [meldItems, Option.some.injEq, Prod.mk.injEq] at hm
+    obtain ⟨rfl, rfl⟩ := hm
+    exact ⟨le_refl _, hi, hy⟩
+  | x :: xs, y :: ys, h, h', zs, hi, hx, hy, hm => by
+    simp only [meldItems] at hm
+    cases hgn : g h x y with
+    | none => simp [hgn] at hm
+    | some q =>
+      obtain ⟨h1, r⟩ := q
+      simp only [hgn] at hm
+      cases hrest : meldItems g h1 xs ys with
+      | none => simp [hrest] at hm
+      | some q2 =>
+        obtain ⟨h2, rs⟩ := q2
+        simp only [hrest, Option.some.injEq, Prod.mk.injEq] at hm
+        obtain ⟨rfl, rfl⟩ := hm
+        obtain ⟨l1, i1, g1⟩ := hg h x y h1 r hi (hx x (List.mem_cons_self ..)) (hy y (List.mem_cons_self ..)) hgn
+        obtain ⟨l2, i2, g2⟩ := meldItems_share hg xs ys h1 h2 rs i1
+          (fun a ha => (hx a (List.mem_cons_of_mem _ ha)).mono l1)
+          (fun a ha => (hy a (List.mem_cons_of_mem _ ha)).mono l1) hrest
+        refine ⟨le_trans l1 l2, i2, ?_⟩
+        intro z hz
+        rcases List.mem_cons.mp hz with rfl | hz
+        · exact g1.mono l2
+        · exact g2 z hz
+
+theorem good_coalesceH (ctx : ShareCtx h0 S) {h : Heap} {n v : Addr} (hn : Good h0 S h n)
+    (hv : Good h0 S h v) : Good h0 S h (coalesceH h n v) := by
+  unfold coalesceH
+  split
+  · exact hv
+  · split
+    · exact hn
+    · exact Or.inl ctx.nil
+
+theorem mem_kids_cont {kvs : AMap Addr} {k : Addr} (hk : k ∈ (Cell.cont kvs).kids) :
+    ∃ p ∈ kvs, p.2 = k := by
+  simp only [Cell.kids, List.mem_map] at hk
+  exact hk
+
+theorem mergeNodeF_share (ctx : ShareCtx h0 S) (o : ListStrategy) :
+    ∀ (f : Nat), ShareSpec2 h0 S (mergeNodeF o f)
+  | 0 => by intro h n v h' r _ _ _ hm; simp [mergeNodeF] at hm
+  | f + 1 => by
+    intro h n v h' r hi gn gv hm
+    cases hn : h.get? n with
+    | none => rw [mergeNodeF_none (Or.inl hn)] at hm; cases hm
+    | some cn =>
+      cases hv : h.get? v with
+      | none => rw [mergeNodeF_none (Or.inr hv)] at hm; cases hm
+      | some cv =>
+        have kn := Good.kids ctx hi gn hn
+        have kv := Good.kids ctx hi gv hv
+        rcases cellPair_cases cn cv with ⟨ka, kb, rfl, rfl⟩ | ⟨xs, ys, rfl, rfl⟩ | ⟨c1, c2⟩
+        · rw [mergeNodeF_cont hn hv] at hm
+          cases hf : foldKvs (mergeNodeF o f) h ka kb with
+          | none => simp [hf] at hm
+          | some q =>
+            obtain ⟨h1, m⟩ := q
+            simp only [hf, Option.bind_some, Option.some.injEq] at hm
+            have e1 : h' = (h1.alloc (.cont m)).1 := (congrArg Prod.fst hm).symm
+            have e2 : r = h1.size := (congrArg Prod.snd hm).symm
+            subst e1; subst e2
+            obtain ⟨l1, i1, g1⟩ := foldKvs_share (mergeNodeF_share ctx o f) kb h ka h1 m hi
+              (fun p hp => kn p.2 (by simp only [Cell.kids, List.mem_map]; exact ⟨p, hp, rfl⟩))
+              (fun p hp => kv p.2 (by simp only [Cell.kids, List.mem_map]; exact ⟨p, hp, rfl⟩)) hf
+            refine ⟨le_trans l1 (le_alloc _ _), i1.alloc ?_, Good.alloc_new i1 _⟩
+            intro k hk
+            obtain ⟨p, hp, rfl⟩ := mem_kids_cont hk
+            exact g1 p hp
+        · cases o with
+          | append =>
+            rw [mergeNodeF_list_append hn hv] at hm
+            simp only [Option.some.injEq] at hm
+            have e1 : h' = (h.alloc (.list (xs ++ ys))).1 := (congrArg Prod.fst hm).symm
+            have e2 : r = h.size := (congrArg Prod.snd hm).symm
+            subst e1; subst e2
+            refine ⟨le_alloc _ _, hi.alloc ?_, Good.alloc_new hi _⟩
+            intro k hk
+            simp only [Cell.kids, List.mem_append] at hk
+            rcases hk with hk | hk
+            · exact kn k (by simpa [Cell.kids] using hk)
+            · exact kv k (by simpa [Cell.kids] using hk)
+          | meld =>
+            rw [mergeNodeF_list_meld hn hv] at hm
+            cases hf : meldItems (mergeNodeF .meld f) h xs ys with
+            | none => simp [hf] at hm
+            | some q =>
+              obtain ⟨h1, zs⟩ := q
+              simp only [hf, Option.bind_some, Option.some.injEq] at hm
+              have e1 : h' = (h1.alloc (.list zs)).1 := (congrArg Prod.fst hm).symm
+              have e2 : r = h1.size := (congrArg Prod.snd hm).symm
+              subst e1; subst e2
+              obtain ⟨l1, i1, g1⟩ := meldItems_share (mergeNodeF_share ctx .meld f) xs ys h h1 zs hi
+                (fun x hx => kn x (by simpa [Cell.kids] using hx))
+                (fun y hy => kv y (by simpa [Cell.kids] using hy)) hf
+              refine ⟨le_trans l1 (le_alloc _ _), i1.alloc ?_, Good.alloc_new i1 _⟩
+              intro k hk
+              exact g1 k (by simpa [Cell.kids] using hk)
+        · rw [mergeNodeF_other hn hv c1 c2] at hm
+          simp only [Option.some.injEq, Prod.mk.injEq] at hm
+          obtain ⟨rfl, rfl⟩ := hm
+          exact ⟨le_refl _, hi, good_coalesceH ctx gn gv⟩
+
+end share
+
+/-- the canonical sharing context of two roots on a closed heap: everything reachable from
+    either, and the nil leaf -/
+theorem shareCtx_of_closed {h : Heap} (hc : h.Closed) (hnil : h.NilOk) {c1 c2 : Addr}
+    (h1 : c1 < h.size) (h2 : c2 < h.size) :
+    ShareCtx h (fun b => Reach h c1 b ∨ Reach h c2 b ∨ b = nilAddr) := by
+  have hin : ∀ {r b : Addr}, r < h.size → Reach h r b → b < h.size := fun hr hrb =>
+    Reach.closed_set (fun a => a < h.size) (fun a c _ hg k hk => hc a c hg k hk) hrb hr
+  refine ⟨?_, ?_, Or.inr (Or.inr rfl)⟩
+  · intro b hb
+    rcases hb with hb | hb | rfl
+    · exact hin h1 hb
+    · exact hin h2 hb
+    · exact get?_lt hnil
+  · intro a c ha hg k hk
+    rcases ha with ha | ha | rfl
+    · exact Or.inl (ha.trans (Reach.child hg hk))
+    · exact Or.inr (Or.inl (ha.trans (Reach.child hg hk)))
+    · rw [hnil] at hg
+      cases Option.some.inj hg
+      simp [Cell.kids] at hk
+
+/-- the result of merging two containers (two lists) is a newly allocated container (list):
+    this holds for the root call and for every recursive call, i.e. at every node of the
+    merged spine -/
+theorem mergeNodeF_spine_fresh {o : ListStrategy} {f : Nat} {h h' : Heap} {n v r : Addr}
+    (hm : mergeNodeF o f h n v = some (h', r)) {cn cv : Cell}
+    (hn : h.get? n = some cn) (hv : h.get? v = some cv)
+    (hk : (cn.isCont = true ∧ cv.isCont = true) ∨ (cn.isList = true ∧ cv.isList = true)) :
+    h.size ≤ r ∧ r < h'.size ∧
+      ∃ c, h'.get? r = some c ∧ c.isCont = cn.isCont ∧ c.isList = cn.isList := by
+  cases f with
+  | zero => simp [mergeNodeF] at hm
+  | succ f =>
+    rcases cellPair_cases cn cv with ⟨ka, kb, rfl, rfl⟩ | ⟨xs, ys, rfl, rfl⟩ | ⟨c1, c2⟩
+    · rw [mergeNodeF_cont hn hv] at hm
+      cases hf : foldKvs (mergeNodeF o f) h ka kb with
+      | none => simp [hf] at hm
+      | some q =>
+        obtain ⟨h1, m⟩ := q
+        simp only [hf, Option.bind_some, Option.some.injEq] at hm
+        have e1 : h' = (h1.alloc (.cont m)).1 := (congrArg Prod.fst hm).symm
+        have e2 : r = h1.size := (congrArg Prod.snd hm).symm
+        subst e1; subst e2
+        have l1 := foldKvs_le (mergeNodeF_le o f) kb h ka h1 m hf
+        exact ⟨size_le_of_le l1, by rw [size_alloc]; exact Nat.lt_succ_self _,
+          .cont m, get?_alloc_new _ _, rfl, rfl⟩
+    · cases o with
+      | append =>
+        rw [mergeNodeF_list_append hn hv] at hm
+        simp only [Option.some.injEq] at hm
+        have e1 : h' = (h.alloc (.list (xs ++ ys))).1 := (congrArg Prod.fst hm).symm
+        have e2 : r = h.size := (congrArg Prod.snd hm).symm
+        subst e1; subst e2
+        exact ⟨Nat.le_refl _, by rw [size_alloc]; exact Nat.lt_succ_self _,
+          .list (xs ++ ys), get?_alloc_new _ _, rfl, rfl⟩
+      | meld =>
+        rw [mergeNodeF_list_meld hn hv] at hm
+        cases hf : meldItems (mergeNodeF .meld f) h xs ys with
+        | none => simp [hf] at hm
+        | some q =>
+          obtain ⟨h1, zs⟩ := q
+          simp only [hf, Option.bind_some, Option.some.injEq] at hm
+          have e1 : h' = (h1.alloc (.list zs)).1 := (congrArg Prod.fst hm).symm
+          have e2 : r = h1.size := (congrArg Prod.snd hm).symm
+          subst e1; subst e2
+          have l1 := meldItems_le (mergeNodeF_le .meld f) xs ys h h1 zs hf
+          exact ⟨size_le_of_le l1, by rw [size_alloc]; exact Nat.lt_succ_self _,
+            .list zs, get?_alloc_new _ _, rfl, rfl⟩
+    · rcases hk with hk | hk
+      · exact absurd hk c1
+      · exact absurd hk c2
+
+/-! ### 4c. Refinement: the heap-level merge abstracts to the value-level merge -/
+
+theorem nilOk_mono {h h' : Heap} (hn : h.NilOk) (hl : h ≤ h') : h'.NilOk := get?_of_le hl hn
+
+theorem optMapKvs_get?_none {g : Addr → Option Node} :
+    ∀ {m : List (String × Addr)} {mN : List (String × Node)} {k : String},
+      optMapKvs g m = some mN → AMap.get? m k = none → AMap.get? mN k = none
+  | [], mN, k, hm, _ => by
+    simp only [optMapKvs, Option.some.injEq] at hm; subst hm; rfl
+  | (k', a) :: m, mN, k, hm, hk => by
+    obtain ⟨n, ns, _, hms, rfl⟩ := optMapKvs_cons_some.mp hm
+    simp only [AMap.get?] at hk ⊢
+    split at hk
+    · cases hk
+    · rename_i hne
+      rw [if_neg hne]
+      exact optMapKvs_get?_none hms hk
+
+theorem optMapKvs_get?_some {g : Addr → Option Node} :
+    ∀ {m : List (String × Addr)} {mN : List (String × Node)} {k : String} {a : Addr},
+      optMapKvs g m = some mN → AMap.get? m k = some a →
+      ∃ x, g a = some x ∧ AMap.get? mN k = some x
+  | [], _, _, _, _, hk => by simp [AMap.get?] at hk
+  | (k', a') :: m, mN, k, a, hm, hk => by
+    obtain ⟨n, ns, hn, hms, rfl⟩ := optMapKvs_cons_some.mp hm
+    simp only [AMap.get?] at hk ⊢
+    split at hk
+    · rename_i he
+      cases hk
+      exact ⟨n, hn, by rw [if_pos he]⟩
+    · rename_i hne
+      rw [if_neg hne]
+      exact optMapKvs_get?_some hms hk
+
+theorem optMapKvs_insert {g : Addr → Option Node} {k : String} {a : Addr} {x : Node} (ha : g a = some x) :
+    ∀ {m : List (String × Addr)} {mN : List (String × Node)},
+      optMapKvs g m = some mN → optMapKvs g (AMap.insert m k a) = some (AMap.insert mN k x)
+  | [], mN, hm => by
+    simp only [optMapKvs, Option.some.injEq] at hm; subst hm
+    simp only [AMap.insert]
+    exact optMapKvs_cons_some.mpr ⟨x, [], ha, rfl, rfl⟩
+  | (k', a') :: m, mN, hm => by
+    obtain ⟨n, ns, hn, hms, rfl⟩ := optMapKvs_cons_some.mp hm
+    simp only [AMap.insert]
+    split
+    · exact optMapKvs_cons_some.mpr ⟨x, (k', n) :: ns, ha, hm, rfl⟩
+    · split
+      · exact optMapKvs_cons_some.mpr ⟨x, ns, ha, hms, rfl⟩
+      · exact optMapKvs_cons_some.mpr ⟨n, _, hn, optMapKvs_insert ha hms, rfl⟩
+
+theorem optMapM_append {g : Addr → Option Node} :
+    ∀ {xs ys : List Addr} {xN yN : List Node}, optMapM g xs = some xN → optMapM g ys = some yN →
+      optMapM g (xs ++ ys) = some (xN ++ yN)
+  | [], ys, xN, yN, hx, hy => by
+    simp only [optMapM, Option.some.injEq] at hx; subst hx; simpa using hy
+  | x :: xs, ys, xN, yN, hx, hy => by
+    obtain ⟨n, ns, hn, hxs, rfl⟩ := optMapM_cons_some.mp hx
+    exact optMapM_cons_some.mpr ⟨n, ns ++ yN, hn, optMapM_append hxs hy, rfl⟩
+
+/-- the cell under a root with a defined abstraction, and how the two relate -/
+theorem absH_inv {f : Nat} {h : Heap} {a : Addr} {x : Node} (hx : absH f h a = some x) :
+    ∃ f' c, f = f' + 1 ∧ h.get? a = some c ∧
+      match c with
+      | .leaf s => x = .leaf s
+      | .list xs => ∃ ns, optMapM (absH f' h) xs = some ns ∧ x = .list ns
+      | .cont kvs => ∃ m, optMapKvs (absH f' h) kvs = some m ∧ x = .cont m := by
+  cases f with
+  | zero => simp [absH] at hx
+  | succ f' =>
+    refine ⟨f', ?_⟩
+    simp only [absH] at hx
+    cases hg : h.get? a with
+    | none => simp [hg] at hx
+    | some c =>
+      refine ⟨c, rfl, rfl, ?_⟩
+      simp only [hg] at hx
+      cases c with
+      | leaf s => simpa using hx.symm
+      | list xs =>
+        simp only at hx ⊢
+        cases hm : optMapM (absH f' h) xs with
+        | none => simp [hm] at hx
+        | some ns => exact ⟨ns, rfl, by simpa [hm] using hx.symm⟩
+      | cont kvs =>
+        simp only at hx ⊢
+        cases hm : optMapKvs (absH f' h) kvs with
+        | none => simp [hm] at hx
+        | some ns => exact ⟨ns, rfl, by simpa [hm] using hx.symm⟩
+
+theorem absH_kind {f : Nat} {h : Heap} {a : Addr} {x : Node} {c : Cell}
+    (hx : absH f h a = some x) (hc : h.get? a = some c) :
+    x.isCont = c.isCont ∧ x.isList = c.isList := by
+  obtain ⟨f', c', _, hc', hm⟩ := absH_inv hx
+  rw [hc] at hc'
+  cases Option.some.inj hc'
+  cases c with
+  | leaf s => simp only at hm; subst hm; exact ⟨rfl, rfl⟩
+  | list xs => obtain ⟨ns, _, rfl⟩ := hm; exact ⟨rfl, rfl⟩
+  | cont kvs => obtain ⟨m, _, rfl⟩ := hm; exact ⟨rfl, rfl⟩
+
+theorem absH_nil {f : Nat} {h : Heap} (hn : h.NilOk) : absH (f + 1) h nilAddr = some Node.null := by
+  rw [absH, hn]; rfl
+
+theorem hasValueH_eq {f : Nat} {h : Heap} {a : Addr} {x : Node} (hn : h.NilOk)
+    (hx : absH f h a = some x) : hasValueH h a = hasValue x := by
+  obtain ⟨f', c, rfl, hc, hm⟩ := absH_inv hx
+  unfold hasValueH
+  split
+  · rename_i ha
+    subst ha
+    rw [hn] at hc
+    cases Option.some.inj hc
+    simp only at hm
+    subst hm
+    simp [hasValue]
+  · cases c with
+    | leaf s => simp only at hm; subst hm; simp [hc, hasValue]
+    | list xs => obtain ⟨ns, _, rfl⟩ := hm; simp [hc, hasValue]
+    | cont kvs => obtain ⟨m, _, rfl⟩ := hm; simp [hc, hasValue]
+
+theorem absH_coalesceH {f : Nat} {h : Heap} {n v : Addr} {x y : Node} (hn : h.NilOk)
+    (hx : absH f h n = some x) (hy : absH f h v = some y) :
+    absH f h (coalesceH h n v) = some (coalesce x y) := by
+  rw [coalesce_eq]
+  unfold coalesceH
+  rw [hasValueH_eq hn hx, hasValueH_eq hn hy]
+  by_cases h1 : hasValue y = true
+  · simp only [h1, if_true]; exact hy
+  · by_cases h2 : hasValue x = true
+    · simp only [h1, h2, if_true]; exact hx
+    · obtain ⟨f', _, rfl, _, _⟩ := absH_inv hx
+      simp only [h1, h2]
+      exact absH_nil hn
+
+def AbsSpec2 (o : ListStrategy) (f : Nat) (g : Heap → Addr → Addr → Option (Heap × Addr)) : Prop :=
+  ∀ h n v x y, h.NilOk → absH f h n = some x → absH f h v = some y →
+    ∃ h' r, g h n v = some (h', r) ∧ absH f h' r = some (mergeNode o x y)
+
+theorem foldKvs_abs {o : ListStrategy} {f : Nat} {g : Heap → Addr → Addr → Option (Heap × Addr)}
+    (hl : LeSpec2 g) (hg : AbsSpec2 o f g) :
+    ∀ (kb : List (String × Addr)) (h : Heap) (acc : AMap Addr) (accN : AMap Node)
+      (kbN : List (String × Node)), h.NilOk → optMapKvs (absH f h) acc = some accN →
+      optMapKvs (absH f h) kb = some kbN →
+      ∃ h' m, foldKvs g h acc kb = some (h', m) ∧
+        optMapKvs (absH f h') m = some (mergeKvs o accN kbN)
+  | [], h, acc, accN, kbN, _, ha, hb => by
+    simp only [optMapKvs, Option.some.injEq] at hb; subst hb
+    exact ⟨h, acc, rfl, by simpa [mergeKvs] using ha⟩
+  | (k, v) :: rest, h, acc, accN, kbN, hn, ha, hb => by
+    obtain ⟨y, restN, hy, hrest, rfl⟩ := optMapKvs_cons_some.mp hb
+    cases hk : AMap.get? acc k with
+    | none =>
+      have hkN := optMapKvs_get?_none ha hk
+      rw [foldKvs_cons_none hk]
+      obtain ⟨h', m, hf, hm⟩ := foldKvs_abs hl hg rest h (AMap.insert acc k v) (AMap.insert accN k y)
+        restN hn (optMapKvs_insert hy ha) hrest
+      refine ⟨h', m, hf, ?_⟩
+      rw [hm]; simp only [mergeKvs, hkN]
+    | some n =>
+      obtain ⟨x, hx, hkN⟩ := optMapKvs_get?_some ha hk
+      rw [foldKvs_cons_some hk]
+      obtain ⟨h1, r, hgn, hr⟩ := hg h n v x y hn hx hy
+      have l1 := hl h n v h1 r hgn
+      obtain ⟨h', m, hf, hm⟩ := foldKvs_abs hl hg rest h1 (AMap.insert acc k r)
+        (AMap.insert accN k (mergeNode o x y)) restN (nilOk_mono hn l1)
+        (optMapKvs_insert hr (optMapKvs_mono l1 ha)) (optMapKvs_mono l1 hrest)
+      refine ⟨h', m, by simp only [hgn, Option.bind_some]; exact hf, ?_⟩
+      rw [hm]; simp only [mergeKvs, hkN]
+
+theorem meldItems_abs {o : ListStrategy} {f : Nat} {g : Heap → Addr → Addr → Option (Heap × Addr)}
+    (hl : LeSpec2 g) (hg : AbsSpec2 o f g) :
+    ∀ (xs ys : List Addr) (h : Heap) (xN yN : List Node), h.NilOk →
+      optMapM (absH f h) xs = some xN → optMapM (absH f h) ys = some yN →
+      ∃ h' zs, meldItems g h xs ys = some (h', zs) ∧
+        optMapM (absH f h') zs = some (meldList o xN yN)
+  | xs, [], h, xN, yN, _, hx, hy => by
+    simp only [optMapM, Option.some.injEq] at hy; subst hy
+    exact ⟨h, xs, by simp [meldItems], by rw [meldList_nil_right]; exact hx⟩
+  | [], y :: ys, h, xN, yN, _, hx, hy => by
+    simp only [optMapM, Option.some.injEq] at hx; subst hx
+    exact ⟨h, y :: ys, by simp [meldItems], by rw [meldList_nil_left]; exact hy⟩
+  | x :: xs, y :: ys, h, xN, yN, hn, hx, hy => by
+    obtain ⟨a, as, ha, has, rfl⟩ := optMapM_cons_some.mp hx
+    obtain ⟨b, bs, hb, hbs, rfl⟩ := optMapM_cons_some.mp hy
+    obtain ⟨h1, r, hgn, hr⟩ := hg h x y a b hn ha hb
+    have l1 := hl h x y h1 r hgn
+    obtain ⟨h2, rs, hm, hrs⟩ := meldItems_abs hl hg xs ys h1 as bs (nilOk_mono hn l1)
+      (optMapM_mono l1 has) (optMapM_mono l1 hbs)
+    have l2 := meldItems_le hl xs ys h1 h2 rs hm
+    refine ⟨h2, r :: rs, by simp [meldItems, hgn, hm], ?_⟩
+    simp only [meldList]
+    exact optMapM_cons_some.mpr ⟨_, _, absH_mono l2 f r _ hr, hrs, rfl⟩
+
+theorem mergeNodeF_abs (o : ListStrategy) : ∀ (f : Nat), AbsSpec2 o f (mergeNodeF o f)
+  | 0 => by intro h n v x y _ hx _; simp [absH] at hx
+  | f + 1 => by
+    intro h n v x y hnil hx hy
+    obtain ⟨f1, cn, e1, hn, mx⟩ := absH_inv hx
+    obtain ⟨f2, cv, e2, hv, my⟩ := absH_inv hy
+    cases Nat.succ.inj e1
+    cases Nat.succ.inj e2
+    have kx := absH_kind hx hn
+    have ky := absH_kind hy hv
+    rcases cellPair_cases cn cv with ⟨ka, kb, rfl, rfl⟩ | ⟨xs, ys, rfl, rfl⟩ | ⟨c1, c2⟩
+    · obtain ⟨kaN, hka, rfl⟩ := mx
+      obtain ⟨kbN, hkb, rfl⟩ := my
+      obtain ⟨h1, m, hf, hm⟩ := foldKvs_abs (mergeNodeF_le o f) (mergeNodeF_abs o f) kb h ka kaN kbN
+        hnil hka hkb
+      refine ⟨(h1.alloc (.cont m)).1, h1.size, ?_, ?_⟩
+      · rw [mergeNodeF_cont hn hv, hf]; rfl
+      · rw [absH_alloc_cont hm, mergeNode_cont_cont]
+    · obtain ⟨xN, hxs, rfl⟩ := mx
+      obtain ⟨yN, hys, rfl⟩ := my
+      rw [mergeNode_list_list]
+      cases o with
+      | append =>
+        refine ⟨(h.alloc (.list (xs ++ ys))).1, h.size, mergeNodeF_list_append hn hv, ?_⟩
+        rw [absH_alloc_list (optMapM_append hxs hys)]; rfl
+      | meld =>
+        obtain ⟨h1, zs, hf, hz⟩ := meldItems_abs (mergeNodeF_le .meld f) (mergeNodeF_abs .meld f)
+          xs ys h xN yN hnil hxs hys
+        refine ⟨(h1.alloc (.list zs)).1, h1.size, ?_, ?_⟩
+        · rw [mergeNodeF_list_meld hn hv, hf]; rfl
+        · rw [absH_alloc_list hz]; rfl
+    · refine ⟨h, coalesceH h n v, mergeNodeF_other hn hv c1 c2, ?_⟩
+      rw [mergeNode_other o x y (by rw [kx.1, ky.1]; exact c1) (by rw [kx.2, ky.2]; exact c2)]
+      exact absH_coalesceH hnil hx hy
+
+/-! ### mergeContainers = mergeNode on two container cells -/
+
+theorem get?_cont_of_absH {f : Nat} {h : Heap} {a : Addr} {m : List (String × Node)}
+    (hx : absH f h a = some (.cont m)) : ∃ kvs, h.get? a = some (.cont kvs) := by
+  obtain ⟨_, c, _, hc, hm⟩ := absH_inv hx
+  cases c with
+  | leaf s => simp only at hm; cases hm
+  | list xs => obtain ⟨_, _, hm⟩ := hm; cases hm
+  | cont kvs => exact ⟨kvs, hc⟩
+
+theorem mergeContainersF_eq {o : ListStrategy} {f : Nat} {h : Heap} {c1 c2 : Addr} {ka kb : AMap Addr}
+    (h1 : h.get? c1 = some (.cont ka)) (h2 : h.get? c2 = some (.cont kb)) :
+    mergeContainersF o f h c1 c2 = mergeNodeF o f h c1 c2 := by
+  simp only [mergeContainersF, h1, h2]
+
+theorem mergeContainersF_inv {o : ListStrategy} {f : Nat} {h h' : Heap} {c1 c2 r : Addr}
+    (hm : mergeContainersF o f h c1 c2 = some (h', r)) :
+    ∃ ka kb, h.get? c1 = some (.cont ka) ∧ h.get? c2 = some (.cont kb) ∧
+      mergeNodeF o f h c1 c2 = some (h', r) := by
+  unfold mergeContainersF at hm
+  split at hm
+  · rename_i ka kb h1 h2
+    exact ⟨ka, kb, h1, h2, hm⟩
+  · cases hm
+
 end Ytk.Heap
